@@ -15,6 +15,8 @@ def check(ctx):
     rep.floor("float casts / serialize_f64 sites in the Hayson writer", ncc, 2)
     from rules import tz as _tz
     _tz.check_utc_guard(ctx, rep)
+    ntzr = _tz.check(ctx, rep)
+    rep.floor("zone-mapping call sites (R-TZ)", ntzr, 10)
     hayson.check_member_loop(ctx, rep)
     ntd = hayson.check_typed_deserializers(ctx, rep)
     nmg = hayson.check_member_guards(ctx, rep)
